@@ -49,6 +49,11 @@ static int vs_thread_was_joined(int t) {
     return 1;
 }
 static int vs_current_tid(void) { return 0; }
+static int vs_seq_now(void) { return 0; }
+static int vs_last_lock_seq(int tid) {
+    (void)tid;
+    return 0;
+}
 static uint64_t vs_now_ns(void) {
     struct timespec ts;
     clock_gettime(CLOCK_MONOTONIC, &ts);
